@@ -7,13 +7,20 @@ RULE = ("texts over an alphabet rich in ':', '=', '\\\\', non-ASCII and astral c
         "distinct = (op, which special characters occur, #positional, #keyword, raised?)")
 ASSUMES = ["descriptions are str (the bytes variant of _tokenize is the same code path through _matchingString)",
            "keyword names contain none of ':', '=', '\\\\' (they are Python identifiers in every endpoint parser)"]
+TRUSTED = ["harness/py2lean.py (translator: endpoints.quoteStringArgument is regenerated into lean/Generated/Quote.lean on every run — "
+           "str as List Char, the tuple unpacking of the literal as three characters, the for-loop of argument.replace(c, "
+           "backslash + c) as List.foldl of the generated loop body, str.replace with a one-character pattern as the translator's "
+           "fixed pyReplace1; translator-regenerated kernel proved equal to the model: TwistedProps.C46.gen_quote)"]
 MANIFEST = {
     "text": "Lean theorems (TwistedProps/C46.lean) for every list of arguments in every position: parsing the ':'-joined "
             "description built with quoteStringArgument returns exactly the positional texts in order and the keyword texts "
-            "under their names (literal-consumption lemma for the tokenizer, induction over the argument list); model tied to "
+            "under their names (literal-consumption lemma for the tokenizer, induction over the argument list); "
+            "quoteStringArgument itself is regenerated from endpoints.py by the translator on every run and proved equal to the "
+            "model's quote (gen_quote); model tied to "
             "endpoints.py by differential runs of quote/_parse/roundtrip on hostile texts.",
     "note": "trusts Lean kernel, the hand-written model of quoteStringArgument/_tokenize/_parse (differentially tied), CPython str.replace",
-    "technique": "Lean 4 proof (tokenizer consumption lemma + induction) + differential tie",
+    "technique": "Lean 4 proof (tokenizer consumption lemma + induction) + differential tie + translator-regenerated kernel "
+                 "(quoteStringArgument) proved equal to the model",
     "design_ref": "DESIGN.md §7.6 C46",
 }
 
